@@ -627,12 +627,15 @@ impl<'a, T: Send> Future for RecvBatchFuture<'a, T> {
       if (st & 0x01) != 0 {
         this.is_registered = false;
         if (st & 0x02) == 0 {
+          // Woken because the last sender left. Items sent before that may
+          // still be queued (e.g. the receiver woken for them gave up), and
+          // they come before Disconnected: unlink and fall through to the
+          // normal attempt, which reports Disconnected only once drained.
           let mut guard = this.receiver.shared.internal.lock();
           guard
             .waiting_async_receivers
             .retain(|w| w.state != state_ptr);
           drop(guard);
-          return Poll::Ready(Err(RecvError::Disconnected));
         }
       }
     }
@@ -740,12 +743,15 @@ impl<'a, T: Send> Future for RecvBatchMutFuture<'a, T> {
       if (st & 0x01) != 0 {
         this.is_registered = false;
         if (st & 0x02) == 0 {
+          // Woken because the last sender left. Items sent before that may
+          // still be queued (e.g. the receiver woken for them gave up), and
+          // they come before Disconnected: unlink and fall through to the
+          // normal attempt, which reports Disconnected only once drained.
           let mut guard = this.receiver.shared.internal.lock();
           guard
             .waiting_async_receivers
             .retain(|w| w.state != state_ptr);
           drop(guard);
-          return Poll::Ready(Err(RecvError::Disconnected));
         }
       }
     }
@@ -842,12 +848,15 @@ impl<'a, T: Send> Future for RecvFuture<'a, T> {
       if (st & 0x01) != 0 {
         this.is_registered = false;
         if (st & 0x02) == 0 {
+          // Woken because the last sender left. Items sent before that may
+          // still be queued (e.g. the receiver woken for them gave up), and
+          // they come before Disconnected: unlink and fall through to the
+          // normal attempt, which reports Disconnected only once drained.
           let mut guard = this.receiver.shared.internal.lock();
           guard
             .waiting_async_receivers
             .retain(|w| w.state != state_ptr);
           drop(guard);
-          return Poll::Ready(Err(RecvError::Disconnected));
         }
       }
     }
